@@ -327,9 +327,9 @@ class ExprMixin:
             if isinstance(a, PyList) and isinstance(b, PyList):
                 return PyList(a.items + b.items)
             if isinstance(a, PyList) and isinstance(b.ty, TSeq):
-                a = coerce(a, b.ty)
+                a = self.list_to_seq(a, b.ty, st, node)
             if isinstance(b, PyList) and isinstance(a.ty, TSeq):
-                b = coerce(b, a.ty)
+                b = self.list_to_seq(b, a.ty, st, node)
             if isinstance(a.ty, (TStr, TBytes, TSeq)) and a.ty.comps() == b.ty.comps():
                 return Val(a.ty, [z3.Concat(a.t, b.t)])
             if isinstance(a.ty, TInt) and isinstance(b.ty, TInt):
@@ -354,6 +354,16 @@ class ExprMixin:
         if isinstance(selfv, Val) and isinstance(selfv.ty, TRef) and self.field_type(selfv.ty.cls, "path") is not None:
             roots.append(self.heap_read(st, selfv, "path").t)
         return roots
+
+    def list_to_seq(self, lst, ty, st, node):
+        out = empty_seq(ty.elem)
+        for it in lst.items:
+            try:
+                it = self.narrow(st, it, ty.elem, node, "list-element")
+            except TypeError as e:
+                raise Unsupported("list element: %s" % e, node)
+            out = Val(ty, [z3.Concat(out.t, z3.Unit(it.t))])
+        return out
 
     def str_repeat(self, a, b, st):
         f = z3.Function("str_repeat", z3.StringSort(), z3.IntSort(), z3.StringSort())
